@@ -27,18 +27,26 @@ var TplIDs = []string{"p", "p2"}
 //
 //	s1,s2  valid, no vars           sv  declares var v without a default (needs vars {v})
 //	sx     rejected by validation   sf  writes to InfluxDB: starting it fails while the cluster is down
-//	q1,q2  var with a default       qv  needs var v        qf  like sf
+//	si     stream task with an implicit dbrp declaration (dbrp "db3"."rp3" = d3)
+//	q1,q2  var with a default       qv  needs var v        qf  like sf, and declares d3
+//	qi     declares d3              qb  batch template querying db1.rp1
+//
+// Every stream script has a log() node right after from() and no measurement filter: the harness
+// probes which db.rp an executing task actually receives points from (see world.subscriptions).
 var Scripts = map[string]string{
-	"s1": "stream\n    |from()\n        .measurement('m1')\n",
-	"s2": "stream\n    |from()\n        .measurement('m2')\n    |window()\n        .period(10s)\n        .every(10s)\n",
-	"sv": "var v string\n\nstream\n    |from()\n        .measurement(v)\n",
+	"s1": "stream\n    |from()\n    |log()\n",
+	"s2": "stream\n    |from()\n    |log()\n    |window()\n        .period(10s)\n        .every(10s)\n",
+	"sv": "var v string\n\nstream\n    |from()\n    |log()\n        .prefix(v)\n",
 	"sx": "stream\n    |nosuch()\n",
-	"sf": "stream\n    |from()\n        .measurement('mf')\n    |influxDBOut()\n        .cluster('c1')\n        .database('out')\n        .measurement('o')\n",
+	"sf": "stream\n    |from()\n    |log()\n    |influxDBOut()\n        .cluster('c1')\n        .database('out')\n        .measurement('o')\n",
 	"sb": "batch\n    |query('SELECT value FROM \"db1\".\"rp1\".\"m\"')\n        .period(10s)\n        .every(10s)\n    |count('value')\n",
-	"q1": "var w = 'a'\n\nstream\n    |from()\n        .measurement(w)\n",
-	"q2": "var w = 'b'\n\nstream\n    |from()\n        .measurement(w)\n    |window()\n        .period(10s)\n        .every(10s)\n",
-	"qv": "var v string\n\nvar w = 'c'\n\nstream\n    |from()\n        .measurement(v)\n        .groupBy(w)\n",
-	"qf": "var w = 'f'\n\nstream\n    |from()\n        .measurement(w)\n    |influxDBOut()\n        .cluster('c1')\n        .database('out')\n        .measurement('o')\n",
+	"si": "dbrp \"db3\".\"rp3\"\n\nstream\n    |from()\n    |log()\n",
+	"q1": "var w = 'a'\n\nstream\n    |from()\n        .groupBy(w)\n    |log()\n",
+	"q2": "var w = 'b'\n\nstream\n    |from()\n        .groupBy(w)\n    |log()\n    |window()\n        .period(10s)\n        .every(10s)\n",
+	"qv": "var v string\n\nvar w = 'c'\n\nstream\n    |from()\n        .groupBy(w)\n    |log()\n        .prefix(v)\n",
+	"qf": "dbrp \"db3\".\"rp3\"\n\nvar w = 'f'\n\nstream\n    |from()\n        .groupBy(w)\n    |log()\n    |influxDBOut()\n        .cluster('c1')\n        .database('out')\n        .measurement('o')\n",
+	"qi": "dbrp \"db3\".\"rp3\"\n\nvar w = 'i'\n\nstream\n    |from()\n        .groupBy(w)\n    |log()\n",
+	"qb": "var w = 'value'\n\nbatch\n    |query('SELECT value FROM \"db1\".\"rp1\".\"m\"')\n        .period(10s)\n        .every(10s)\n    |count(w)\n",
 }
 
 var scriptID = func() map[string]string {
@@ -49,6 +57,7 @@ var scriptID = func() map[string]string {
 	return m
 }()
 
+// d3 (db3.rp3) is never sent in a request: it is what scripts si, qi, qf declare.
 var DBRPs = map[string][]client.DBRP{
 	"d1": {{Database: "db1", RetentionPolicy: "rp1"}},
 	"d2": {{Database: "db2", RetentionPolicy: "rp2"}},
@@ -112,6 +121,9 @@ func (q Req) http() (method, pattern, path string, body []byte) {
 		return "DELETE", "/tasks/", httpd.BasePath + "/tasks/" + q.ID, nil
 	case "CreateTpl":
 		o := client.CreateTemplateOptions{ID: q.ID, TICKscript: Scripts[q.Script], Type: client.StreamTask}
+		if q.Script == "qb" {
+			o.Type = client.BatchTask
+		}
 		body, _ = json.Marshal(o)
 		return "POST", "/templates", httpd.BasePath + "/templates", body
 	case "UpdateTpl":
@@ -164,6 +176,8 @@ func (w *world) do(q Req) int {
 // TaskView is what the API shows of one task id (X=false: not listed).
 type TaskView struct {
 	X      bool
+	Type   string // stream | batch, as the API reports it
+	Sub    string // executing stream task: the dbrp(s) it actually receives points from ("batch" for a batch task)
 	Script string
 	DBRPs  string
 	Vars   string
@@ -174,7 +188,7 @@ type TaskView struct {
 }
 
 func (v TaskView) m() rt.M {
-	return rt.M{"x": v.X, "script": v.Script, "dbrps": v.DBRPs, "vars": v.Vars, "status": v.Status, "tpl": v.Tpl, "exec": v.Exec, "err": v.Err}
+	return rt.M{"x": v.X, "type": v.Type, "sub": v.Sub, "script": v.Script, "dbrps": v.DBRPs, "vars": v.Vars, "status": v.Status, "tpl": v.Tpl, "exec": v.Exec, "err": v.Err}
 }
 
 type Catalogue struct {
@@ -231,6 +245,8 @@ func dbrpsID(v any) string {
 		return "d1"
 	case "db2.rp2":
 		return "d2"
+	case "db3.rp3":
+		return "d3"
 	}
 	return "?" + strings.Join(parts, ",")
 }
@@ -273,6 +289,7 @@ func inUniverse(id string, u []string) bool {
 
 func taskViewOf(t map[string]any) TaskView {
 	v := TaskView{X: true}
+	v.Type, _ = t["type"].(string)
 	v.Script = scriptName(t["script"])
 	v.DBRPs = dbrpsID(t["dbrps"])
 	v.Vars = varsID(t["vars"])
@@ -340,6 +357,25 @@ func (w *world) catalogue() Catalogue {
 		default:
 			c.Extra = append(c.Extra, fmt.Sprintf("get task %s: code %d, listed %v", id, code, listed))
 		}
+	}
+	// what the executing tasks are really subscribed to
+	var streams []string
+	for _, id := range TaskIDs {
+		if v := c.Tasks[id]; v.X && v.Exec {
+			// the type of what EXECUTES (a PATCH may have changed the stored type since it was started):
+			// only an executing batch task has batch collectors
+			if len(w.tm.BatchCollectors(id)) == 0 {
+				streams = append(streams, id)
+			} else {
+				v.Sub = "batch"
+				c.Tasks[id] = v
+			}
+		}
+	}
+	for id, sub := range w.subscriptions(streams) {
+		v := c.Tasks[id]
+		v.Sub = sub
+		c.Tasks[id] = v
 	}
 	code, body = w.call("GET", "/templates", httpd.BasePath+"/templates?script-format=raw&fields=script", nil)
 	if code != 200 {
